@@ -137,6 +137,12 @@ func (e *syncEnv) RequestBlock(ctx context.Context, hash Hash, handler bitcoin_r
 		if beh == "slow" {
 			time.Sleep(time.Duration(1+r.Intn(6)) * time.Millisecond)
 		}
+		if beh == "slowdrop" {
+			// the manager resets its no-node counter when one of its 2 ms polls sees an active
+			// download: keep this one active for hundreds of poll intervals so that a poll delayed
+			// by machine load cannot miss it
+			time.Sleep(1200 * time.Millisecond)
+		}
 		if beh == "slow10s" {
 			time.Sleep(10600 * time.Millisecond)
 		}
@@ -151,7 +157,7 @@ func (e *syncEnv) RequestBlock(ctx context.Context, hash Hash, handler bitcoin_r
 			deliver = MkBlock(r, blk.Header.PrevBlock, 2)
 		}
 		cutAt := len(deliver.Txs)
-		if beh == "drop" {
+		if beh == "drop" || beh == "slowdrop" {
 			cutAt = r.Intn(len(deliver.Txs))
 		}
 		go func() {
@@ -166,7 +172,7 @@ func (e *syncEnv) RequestBlock(ctx context.Context, hash Hash, handler bitcoin_r
 		}()
 		handler(ctx, deliver.Header, uint64(len(deliver.Txs)), ch)
 		node.EndHandler()
-		if beh == "drop" {
+		if beh == "drop" || beh == "slowdrop" {
 			onStop(ctx)
 		}
 	}()
@@ -326,7 +332,19 @@ func c05Case(ctx context.Context, run *common.Run, obs *c05obs, idx int, orphan 
 	}
 	planSeed := rng.Int63()
 	consecutiveNA := 0
+	longOutage := faulty && !orphan && !slow10 && idx%5 == 2
 	env.plan = func(n int) string {
+		if longOutage {
+			// two outages of the same block request, each within the manager's limit of 20 polls
+			// without an active download, separated by a download that starts and fails
+			switch {
+			case n < 12, n > 12 && n < 25:
+				return "notavail"
+			case n == 12:
+				return "slowdrop"
+			}
+			return "deliver"
+		}
 		if !faulty || n > 40 {
 			return "deliver"
 		}
@@ -383,6 +401,9 @@ func c05Case(ctx context.Context, run *common.Run, obs *c05obs, idx int, orphan 
 	desc := fmt.Sprintf("chain=%d start=%d preprocessed=%v faulty=%v concurrent=%d orphan=%v", L, start, keysOf(pre), faulty, conc, orphan)
 	wit := map[string]interface{}{"kind": "block-sync-scenario", "case": idx, "seed": run.Seed, "chain_length": L, "start_height": start,
 		"preprocessed_heights": keysOf(pre), "concurrent": conc, "orphan_case": orphan}
+	if longOutage {
+		wit["source_plan"] = "12 x no-node, one download that starts and drops, 12 x no-node, then recovery"
+	}
 	viol := func(clause, sig, detail string) {
 		run.Violate(common.Violation{Clause: clause, Signature: sig, Detail: desc + ": " + detail, Witness: wit})
 	}
